@@ -64,11 +64,11 @@ func runC13(c *Ctx) {
 				if !ok || ex.Index != 1 {
 					return false
 				}
-				lk, ok := ex.Tuple.(*ssa.Lookup)
+				lk, ok := origin(ex.Tuple).(*ssa.Lookup)
 				if !ok || !isFieldLoad(lk.X, "vnet.Router", "nics") {
 					return false
 				}
-				call, ok := lk.Index.(*ssa.Call)
+				call, ok := origin(lk.Index).(*ssa.Call)
 				return ok && callName(call) == "(net.IP).String" && call.Call.Args[0] == ip
 			}, false)
 		})
@@ -116,7 +116,7 @@ func runC13(c *Ctx) {
 	}) {
 		nReg++
 		mu := in.(*ssa.MapUpdate)
-		kc, _ := mu.Key.(*ssa.Call)
+		kc, _ := origin(mu.Key).(*ssa.Call)
 		var ip ssa.Value
 		if kc != nil && callName(kc) == "(net.IP).String" {
 			ip = kc.Call.Args[0]
@@ -186,7 +186,7 @@ func runC13(c *Ctx) {
 					if !ok {
 						return false
 					}
-					cl, ok := ex.Tuple.(*ssa.Call)
+					cl, ok := origin(ex.Tuple).(*ssa.Call)
 					return ok && cl.Call.StaticCallee() == assignPort && ex.Index == 1
 				}, true) {
 					cut = append(cut, cfgEdge{b, b.Succs[k]})
@@ -196,7 +196,7 @@ func runC13(c *Ctx) {
 					if !ok || ex.Index != 1 {
 						return false
 					}
-					cl, ok := ex.Tuple.(*ssa.Call)
+					cl, ok := origin(ex.Tuple).(*ssa.Call)
 					return ok && callName(cl) == "(*vnet.udpConnMap).find"
 				}, false) {
 					cut = append(cut, cfgEdge{b, b.Succs[k]})
@@ -347,17 +347,17 @@ func runC13(c *Ctx) {
 	for _, in := range findU(netIn, func(in ssa.Instruction) bool { return isPlainCall(in, "(*vnet.UDPConn).onInboundChunk") }) {
 		cl := in.(*ssa.Call)
 		o.Site(in.Pos(), "deliver")
-		ex, ok := cl.Call.Args[0].(*ssa.Extract)
+		ex, ok := origin(cl.Call.Args[0]).(*ssa.Extract)
 		var fc *ssa.Call
 		if ok {
-			fc, _ = ex.Tuple.(*ssa.Call)
+			fc, _ = origin(ex.Tuple).(*ssa.Call)
 		}
 		if fc == nil || fc.Call.StaticCallee() != find {
 			o.Fail(in.Pos(), "the receiving socket is not the result of the table lookup")
 			continue
 		}
 		if addrClass(fc.Call.Args[1]) != "dst" {
-			d, ok := fc.Call.Args[1].(*ssa.Call)
+			d, ok := origin(fc.Call.Args[1]).(*ssa.Call)
 			if !ok || !d.Call.IsInvoke() || d.Call.Method.Name() != "DestinationAddr" || !sameOrigin(d.Call.Value, ssa.Value(netIn.Params[1])) {
 				o.Fail(in.Pos(), "the socket is looked up by something else than the datagram's destination address")
 			}
@@ -446,8 +446,8 @@ func valueKind(v ssa.Value) string {
 			if fr, ok := asFieldLoad(x.Call.Value); ok {
 				return "dynamic(" + fr.SName + "." + fr.Field + ")"
 			}
-			if u, ok := x.Call.Value.(*ssa.UnOp); ok {
-				if ia, ok := u.X.(*ssa.IndexAddr); ok {
+			if u, ok := origin(x.Call.Value).(*ssa.UnOp); ok {
+				if ia, ok := origin(u.X).(*ssa.IndexAddr); ok {
 					if fr, ok := asFieldLoad(ia.X); ok {
 						return "dynamic(" + fr.SName + "." + fr.Field + "[])"
 					}
@@ -607,7 +607,7 @@ func runC01(c *Ctx) {
 	instrsOfU(writeTo, func(in ssa.Instruction) {
 		if st, ok := in.(*ssa.Store); ok && isFieldStore(st, "vnet.chunkUDP", "userData") {
 			o.Site(in.Pos(), "userData = %s", st.Val.String())
-			mk, isMk := st.Val.(*ssa.MakeSlice)
+			mk, isMk := origin(st.Val).(*ssa.MakeSlice)
 			if !isMk {
 				o.Fail(in.Pos(), "the chunk's payload is not a freshly allocated slice")
 				return
@@ -805,16 +805,16 @@ func runC01(c *Ctx) {
 		for _, in := range findU(f, func(in ssa.Instruction) bool { return isPlainCall(in, "(*vnet.UDPConn).onInboundChunk") }) {
 			cl := in.(*ssa.Call)
 			o.Site(in.Pos(), "deliver in %s", fname(f))
-			ex, _ := cl.Call.Args[0].(*ssa.Extract)
+			ex, _ := origin(cl.Call.Args[0]).(*ssa.Extract)
 			var fc *ssa.Call
 			if ex != nil {
-				fc, _ = ex.Tuple.(*ssa.Call)
+				fc, _ = origin(ex.Tuple).(*ssa.Call)
 			}
 			if fc == nil || fc.Call.StaticCallee() != find {
 				o.Fail(in.Pos(), "the receiving socket is not the result of the table lookup")
 				continue
 			}
-			d, ok := fc.Call.Args[1].(*ssa.Call)
+			d, ok := origin(fc.Call.Args[1]).(*ssa.Call)
 			isDst := ok && (d.Call.IsInvoke() && d.Call.Method.Name() == "DestinationAddr" || callName(d) == "(*vnet.chunkUDP).DestinationAddr")
 			if !isDst {
 				o.Fail(in.Pos(), "the socket is looked up by something else than the datagram's destination address")
@@ -844,7 +844,7 @@ func runC01(c *Ctx) {
 		if _, isGo := in.(*ssa.Go); isGo {
 			o.Fail(in.Pos(), "the router pushes from a new goroutine (reordering)")
 		}
-		ex, ok := cl.Common().Args[1].(*ssa.Extract)
+		ex, ok := origin(cl.Common().Args[1]).(*ssa.Extract)
 		if !ok || tout == nil || !sameOrigin(ex.Tuple, ssa.Value(tout)) || ex.Index != 0 {
 			o.Fail(in.Pos(), "the chunk pushed to the parent is not the result of the outbound translation")
 		}
@@ -862,7 +862,7 @@ func runC01(c *Ctx) {
 	}
 	if tout != nil && tout.Call.Args[1] != nil {
 		// the translated chunk is the dequeued one
-		if ex, ok := tout.Call.Args[1].(*ssa.Extract); !ok || !sameOrigin(ex.Tuple, ssa.Value(pop.(*ssa.Call))) {
+		if ex, ok := origin(tout.Call.Args[1]).(*ssa.Extract); !ok || !sameOrigin(ex.Tuple, ssa.Value(pop.(*ssa.Call))) {
 			o.Fail(tout.Pos(), "the router translates another chunk than the one it dequeued")
 		}
 	}
@@ -994,7 +994,7 @@ func runC01(c *Ctx) {
 		cl := in.(*ssa.Call)
 		o.Site(in.Pos(), "newChunkUDP")
 		dst := cl.Call.Args[1]
-		if ta, ok := dst.(*ssa.Extract); !ok || !sameOrigin(ta.Tuple.(*ssa.TypeAssert).X, ssa.Value(writeTo.Params[2])) {
+		if ta, ok := dst.(*ssa.Extract); !ok || !sameOrigin(origin(ta.Tuple).(*ssa.TypeAssert).X, ssa.Value(writeTo.Params[2])) {
 			o.Fail(in.Pos(), "the chunk's destination is not the address given to WriteTo")
 		}
 		src := cl.Call.Args[0]
@@ -1008,7 +1008,7 @@ func runC01(c *Ctx) {
 					for _, rr := range *fa.Referrers() {
 						if st, ok := rr.(*ssa.Store); ok {
 							if fr.Field == "IP" {
-								if d, ok := st.Val.(*ssa.Call); ok && d.Call.IsInvoke() && d.Call.Method.Name() == "determineSourceIP" {
+								if d, ok := origin(st.Val).(*ssa.Call); ok && d.Call.IsInvoke() && d.Call.Method.Name() == "determineSourceIP" {
 									ipOK = true
 								}
 							}
